@@ -37,6 +37,7 @@ structure Params where
   loaded : Name → Bool
   ts : Name → Bool
   mw : Name → Name → Bool
+  hm : Name → Name → Bool   -- caddyhttp.MatchHost{pattern}.Match(request with this Host): `hm host pattern`
 
 structure Addr where
   net : Nat
